@@ -688,6 +688,19 @@ func (w *World) afterStep() {
 // first (caches catch up), then parked actors, then new passes, then benign
 // agents; time only advances when nothing else can happen.
 func (w *World) fairPick(acts []action) action {
+	if w.fairRandom {
+		// another fair schedule: uniformly among everything that is not the clock
+		var cand []action
+		for _, a := range acts {
+			if a.kind != actTick {
+				cand = append(cand, a)
+			}
+		}
+		if len(cand) > 0 {
+			return cand[w.Sch.Intn(len(cand), "fair-random")]
+		}
+		return acts[len(acts)-1]
+	}
 	order := []int{actDeliver, actResume, actStart, actAgent}
 	for _, k := range order {
 		var cand []action
